@@ -502,6 +502,46 @@ def no_missing_return(ctx: Ctx, rule: str, modules: Iterable[str], what: str) ->
     return n
 
 
+def kinds_not_confused(ctx: Ctx, rule: str, modules: Iterable[str], what: str) -> int:
+    """The package gives each kind of name its own type (NewType / class): LocalDepPath (a name as written in a function),
+    CanonicalPath (a resolved object), DDSPath (a store path), PyHash (a signature), ...  mypy reports no argument /
+    assignment / return / index / item whose kind is another one than declared, in the given modules.  (The pinned tree is
+    clean; a memo keyed by the local name instead of the canonical path, a path registered under a hash... are such errors.)"""
+    import re
+    rep = ctx.report
+    kinds: List[str] = []
+    st_mod = ctx.prog.modules.get("dds.structures")
+    if st_mod is None:
+        raise AnchorError("dds.structures not found")
+    for name, sts in st_mod.assigns.items():
+        for st in sts:
+            v = getattr(st, "value", None)
+            if isinstance(v, ast.Call) and unparse(v.func).split(".")[-1] == "NewType":
+                kinds.append(name)
+    for c in ctx.prog.classes.values():
+        if c.module is st_mod and c.name.endswith("Path"):
+            kinds.append(c.name)
+    rels = {ctx.prog.module(m).relpath: m for m in modules if m in ctx.prog.modules}
+    hits = []
+    for e in getattr(ctx.types, "errors", []):
+        m_ = re.match(r"(.*?):(\d+): error: (.*)\[(arg-type|assignment|return-value|index|dict-item|list-item|call-overload)\]\s*$", e)
+        if m_ and m_.group(1).replace("\\", "/") in rels and any(re.search(r"\b" + k + r"\b", m_.group(3)) for k in kinds):
+            hits.append((m_.group(1), int(m_.group(2)), m_.group(3).strip()))
+    if not hits:
+        rep.ok(rule, "dds", f"no value of one kind ({', '.join(sorted(kinds))}) is used where another is declared, in {sorted(rels.values())}", "dds/")
+    for rel, ln, msg in hits:
+        mod = ctx.prog.module(rels[rel])
+        f = None
+        for g in ctx.prog.funcs.values():
+            if g.module is mod and g.node.lineno <= ln <= getattr(g.node, "end_lineno", g.node.lineno):
+                if f is None or g.node.lineno >= f.node.lineno:
+                    f = g
+        site_ = f.qname if f else rels[rel]
+        rep.bad(rule, site_, "values are used as the kind of name they are declared to be", f"{rel}:{ln}", [f"{rel}:{ln}: mypy: {msg}", what],
+                "kind:" + re.sub(r"\d+", "", msg)[:80], what="a name of one kind is used where another kind is expected: " + msg[:100])
+    return len(kinds)
+
+
 def path_map_value(top: Func) -> Optional[ast.AST]:
     """the value given to the evaluation context's `requested_paths` field by the top-level function:
     `ctx._replace(requested_paths=X)` or a (re)construction `EvalContext(requested_paths=X, ...)` with a non-empty X"""
